@@ -39,8 +39,12 @@ CSE = p.CommonSubexpression
 
 
 def extract(ctx):
+    """T-gen: the precedence constants (lean/PV/Generated/Prec.lean) and the handler table of
+    `CCodeMapper` read from the live source (lean/PV/Generated/CCode.lean)"""
+    from extract.ccode import extract_ccode
     from extract.prec import extract_prec
     extract_prec(ctx)
+    return extract_ccode(ctx)
 
 
 def kind(e):
@@ -1271,6 +1275,102 @@ class CStream(Stream):
             acc["histories_with_copy"] = acc.get("histories_with_copy", 0) + (1 if n else 0)
 
 
+class TableStream(Stream):
+    """T-gen tie, checked from the compiled side: the same history of operations goes through the
+    hand-written model (`runOps`) AND through the TABLE INTERPRETER (`c14RunOpsT`, compiled) run on
+    the table regenerated from the source of c_code.py / stringifier.py; both answers must be the
+    real mapper's (texts, hoisted names, complete allocator state of every mapper of the pool).  The
+    Lean theorem `runOps_eq_table_current` says the two are equal for all histories; this stream
+    checks the reader `extract/ccode.py` and the meaning of the table language against the real
+    code.  Cases: the random histories of the main stream plus every node kind of the text syntax
+    with wrappers in EVERY operand position (the order in which a handler prints its operands
+    decides which wrapper gets which name: `map_subscript` prints the index first)."""
+    name = "ccode-table"
+
+    def __init__(self):
+        self._main = CStream()
+
+    @staticmethod
+    def shapes():
+        """every handler with distinct wrappers in all operand positions"""
+        v = [p.Variable(n) for n in "abcd"]
+        w = [CSE(p.Sum((x, k + 1)), pre) for k, (x, pre) in
+             enumerate(zip(v, [None, "u", None, "u"]))]
+        a, b, c, d = w
+        out = [
+            p.Subscript(a, b), p.Subscript(a, (b, c)), p.Subscript(a, (b,)), p.Subscript(v[0], ()),
+            p.Subscript(p.Subscript(a, b), (c, d)), p.Lookup(a, "f"), p.Lookup(p.Subscript(a, b), "g"),
+            p.Call(a, (b, c)), p.Call(p.Variable("f"), (a, b)), p.Call(p.Lookup(a, "m"), (b,)),
+            p.Call(p.Variable("f"), ()), p.Call(p.Sum((a, 1)), (b,)),
+            p.Quotient(a, b), p.FloorDiv(a, b), p.Remainder(a, b), p.Power(a, b), p.Power(a, 2),
+            p.Power(a, 1), p.Power(a, 0), p.Power(p.Sum((a, b)), 2), p.Power(2, a),
+            p.LeftShift(a, b), p.RightShift(a, b), p.BitwiseNot(a), p.LogicalNot(a),
+            p.Comparison(a, "<=", b), p.If(a, b, c), p.If(p.Comparison(a, "<", b), c, d),
+            p.Min((a, b)), p.Max((a, b, c)), p.Min((a,)), p.Max(()),
+            p.Sum((a, p.Product((-1, b)), c, p.Product((-1, d, a)))),
+            p.Sum((p.Product((-1, a)), p.Product((-1, b)))), p.Sum((p.Product((-1, a)),)),
+            p.Sum((p.Product((-1.0, a)), p.Product((True, b)), p.Product((-1,)))),
+            p.Product((a, p.Quotient(b, c), p.Remainder(c, d))), p.Product((a, -2, b)),
+            p.BitwiseOr((a, b)), p.BitwiseXor((a, b, c)), p.BitwiseAnd((a, b)),
+            p.LogicalOr((a, b)), p.LogicalAnd((a, b, c)), p.LogicalAnd((a,)),
+            CSE(p.Sum((a, b)), "u"), CSE(CSE(v[0], "u"), "u"), CSE(p.Subscript(a, b)),
+            p.Quotient(p.Product((a, b)), p.FloorDiv(c, d)), p.Remainder(p.Quotient(a, b), p.Product((c, d))),
+            p.Sum((-3, a, 2.5, -1e-05, True)), p.Product((p.Sum((a, -3)), -7)), p.Power(-2, a),
+        ]
+        return out
+
+    def cases(self, rng, tier):
+        big = tier != "quick"
+        shapes = self.shapes()
+        for e in shapes:
+            for rev in (True, False):
+                yield {"kind": "hist", "mode": "int", "reverse": rev, "pfx": "_cse", "env": {},
+                       "value": False, "src": "shape", "ops": [["emit", 0, dumps(expr_to_sx(e))]]}
+        # two shapes through one mapper and a copy of it
+        for _ in range(150 if not big else 2500):
+            e1, e2, e3 = (rng.choice(shapes) for _ in range(3))
+            ops = [["emit", 0, dumps(expr_to_sx(e1))], ["copy", 0],
+                   ["emit", rng.randrange(2), dumps(expr_to_sx(e2))],
+                   ["copymapped", 0, [["m0", dumps(expr_to_sx(p.Variable("a") + 1))]]],
+                   ["emit", rng.randrange(3), dumps(expr_to_sx(e3))]]
+            yield {"kind": "hist", "mode": "int", "reverse": rng.random() < 0.8,
+                   "pfx": rng.choice(["_cse", "_t"]), "env": {}, "value": False, "src": "shape-hist",
+                   "ops": ops}
+        for _ in range(450 if not big else 7000):
+            yield self._main._hist(rng, rng.choice(["int", "int", "float"]), False)
+
+    def request(self, pl):
+        return self._main.request(pl).replace("(ccode-hist ", "(ccode-hist2 ", 1)
+
+    def run_impl(self, pl):
+        return self._main.run_impl(pl)
+
+    def agree(self, model, impl, pl):
+        try:
+            ms = loads(model)
+            parts = {x[0]: dumps(x[1]) for x in ms}
+        except Exception:
+            return "diff"
+        if set(parts) != {"model", "table"}:
+            return "diff"
+        if parts["model"] == "(noclaim)" and parts["table"] == "(noclaim)":
+            return "trivial"
+        try:
+            want = dumps(loads(impl))
+        except Exception:
+            return "diff"
+        return "ok" if parts["model"] == want and parts["table"] == want else "diff"
+
+    def oracle(self, pl):
+        return self._main.oracle(pl)
+
+    def shrink(self, pl):
+        return self._main.shrink(pl)
+
+    def stats(self, pl, mo, io, acc):
+        acc[pl["src"]] = acc.get(pl["src"], 0) + 1
+
+
 def probe():
     """replay the minimal input of every known finding on the real code"""
     st = CStream()
@@ -1297,14 +1397,19 @@ def probe():
 PROP = Prop(
     id="C14",
     title="Generated C code computes what the evaluator computes",
-    lean_targets=["PV.Properties.C14"],
+    lean_targets=["PV.Properties.C14", "PV.Properties.C14Table"],
     extractors=[extract],
-    streams=[CStream()],
+    streams=[CStream(), TableStream()],
     probes=[probe],
     trusted_base=["Lean 4.33 kernel; axioms propext, Classical.choice, Quot.sound only",
                   "gcc and the machine's floating point (runtime part: values are compared per run)",
                   "the C reading `denC` of the printed structure is tied to gcc by correspondence",
-                  "extract/prec.py (precedence constants read from the live modules)"],
+                  "extract/prec.py (precedence constants read from the live modules)",
+                  "extract/ccode.py: the reader of the handler source text of CCodeMapper and its "
+                  "base classes (inspect + ast) and the meaning lean/PV/Model/CCodeTable.lean gives "
+                  "to the table language (both exercised by the ccode-table stream against the real "
+                  "mapper); Python-level primitives of the interpreter (attribute access, str() of "
+                  "constants, list.sort, the overloaded operators) are hand-written"],
     assumptions=["C programs are compiled with gcc -O0; `long long` variables for integer "
                  "environments, `double` for floating-point ones; values small enough not to overflow",
                  "`min(a, b)` / `max(a, b)` printed for two-operand Min / Max are supplied to the C "
@@ -1319,6 +1424,12 @@ PROP = Prop(
                "as the tree and the C value equals the evaluator's (True/False as 1/0). Text, "
                "allocator state, the C reading (vs gcc) and the reference meaning (vs the real "
                "evaluator) are tied by correspondence; floating point and gcc itself are runtime "
-               "checks.",
+               "checks. The hand-written model is proved equal (ccodeE_eq_table_current, "
+               "runOps_eq_table_current: all expressions, allocator states, precedences, histories) to "
+               "a table interpreter run on the handler table REGENERATED on every run from the source "
+               "text of CCodeMapper / SimplifyingSortingStringifyMapper / StringifyMapper (recursion "
+               "sites and their precedences, format strings, own precedences, forced parentheses, the "
+               "sorted sum, map_power's cases, the allocator protocol and name generators, __init__ / "
+               "copy / copy_with_mapped_cses).",
     design_ref="DESIGN.md §4 C14",
 )
